@@ -800,13 +800,13 @@ def sim_phase(ctx: Ctx, loop: steploop.StepLoop) -> None:
          ("AlphaHostile", "BehFast", 3, 0, False, 1, 0, True, 150),
          ("AlphaBody", "BehBody", 3, 1, True, 1, 0, True, 150),
          ("AlphaPoison", "BehFast", 3, 99, False, 1, 0, False, 60)],
-        [("AlphaPipe", "BehAll", 3, 0, False, 1, 1, True, 2000),
-         ("AlphaPipe", "BehAll", 4, 1, True, 1, 1, True, 2000),
-         ("AlphaHostile", "BehFast", 4, 0, True, 1, 1, True, 2000),
-         ("AlphaBody", "BehBody", 3, 1, True, 1, 1, True, 2000),
-         ("AlphaBody", "BehBody", 4, 0, False, 1, 0, True, 1500),
-         ("AlphaQueue", "BehQueue", 4, 99, False, 1, 1, True, 1500),
-         ("AlphaPoison", "BehFast", 3, 99, False, 1, 0, False, 1000)])
+        [("AlphaPipe", "BehAll", 3, 0, False, 1, 1, True, 700),
+         ("AlphaPipe", "BehAll", 4, 1, True, 1, 1, True, 700),
+         ("AlphaHostile", "BehFast", 4, 0, True, 1, 1, True, 700),
+         ("AlphaBody", "BehBody", 3, 1, True, 1, 1, True, 700),
+         ("AlphaBody", "BehBody", 4, 0, False, 1, 0, True, 500),
+         ("AlphaQueue", "BehQueue", 4, 99, False, 1, 1, True, 500),
+         ("AlphaPoison", "BehFast", 3, 0, False, 1, 0, False, 600)])
     traces: List[dict] = []
     for (alpha, beh, n, hw, timers, disc, wp, ideal, num) in sims:
         invs = None if ideal else AS_CODED_INVS
@@ -846,7 +846,7 @@ def run(ctx: Ctx) -> None:
     ctx.log(f"hostile-target handling of the code under test: {ctx.extra['code_design']}")
     model_phase(ctx)
     sim_phase(ctx, loop)
-    n = ctx.pick(1000, 24000)
+    n = ctx.pick(1000, 12000)
     batch: List[dict] = []
     for _ in range(n):
         batch.append(random_exec(ctx, loop, ctx.rng))
@@ -983,17 +983,3 @@ def replay(ctx: Ctx, path: str) -> int:
         print(f"VIOLATION property=C05 replay={path}")
         return 1
     return 0
-
-
-if __name__ == "__main__":   # exploratory
-    import sys
-
-    loop = steploop.new_loop()
-    rng = random.Random(int(sys.argv[1]) if len(sys.argv) > 1 else 1)
-    for _ in range(int(sys.argv[2]) if len(sys.argv) > 2 else 1):
-        t = random_exec(None, loop, rng)  # type: ignore[arg-type]
-        print("items", [(i["k"], i["id"], i["end"], i["term"]) for i in t["cfg"]["items"]][:12], t["cfg"]["plan"])
-        for e in t["events"][:80]:
-            print(" ", e["ev"], e["n"], e["a"], e["sub"], e["o"], e["p"])
-        print("resps", [(r["id"], r["att"], r["status"], r["start"], r["end"], r["complete"], r["fr"]) for r in t["cfg"]["resps"]])
-        print("escs", t["cfg"]["escs"])
